@@ -107,6 +107,19 @@ def needCt (r : Rec) (k : String) : Except String Nat :=
   | some z => .ok z
   | none => .error s!"nil *paillier.Ciphertext in field {k}"
 
+/-- a field that is a nil pointer / nil interface (or not there at all) -/
+def Val.isNil : Val → Bool
+  | .nat none | .int none | .big none | .pt none | .sc none | .ct none | .missing => true
+  | _ => false
+
+/-- the nil guards at the head of `IsValid` / `Verify` (`p.X == nil || p.Y == nil || …`): one of the fields is absent -/
+def Rec.anyNil (r : Rec) (ks : List String) : Bool := ks.any fun k => (r.get k).isNil
+
+/-- the decoder left the embedded `*Commitment` nil (no commitment field on the wire): `p.Commitment == nil` -/
+def nilCommitment (prf : Rec) : Bool :=
+  match prf.get "_nocommitment" with | .bool true => true | _ => false
+def nilCommitmentPanic : String := "nil embedded *Commitment dereferenced"
+
 /-! ## the generic part of `challenge()` -/
 
 /-- a selector of `challenge()`: receiver ("public" / "commitment" / "" / "each") and field -/
